@@ -260,8 +260,25 @@ def mentions(t, pred):
 
 
 def guards(b, node_id):
-    """[(cond term, polarity, assume node)] dominating node_id."""
-    return [(n.data['cond'], n.data['pol'], n) for n in b.g.assumes_dominating(node_id)]
+    """[(cond term, polarity, assume node)] dominating node_id.  A conjunction known
+    to be true (a disjunction known to be false) also contributes each of its operands:
+    "if pred(x)" with pred returning "a and b" guards like "if a and b"."""
+    out = []
+    for n in b.g.assumes_dominating(node_id):
+        out.append((n.data['cond'], n.data['pol'], n))
+        out.extend(_operands(n.data['cond'], n.data['pol'], n, 0))
+    return out
+
+
+def _operands(c, pol, n, depth):
+    c2, p2 = unwrap_not(c, pol)
+    out = []
+    if isinstance(c2, BoolT) and depth < 6 and \
+            ((c2.op == 'and' and p2) or (c2.op == 'or' and not p2)):
+        for v in c2.values:
+            out.append((v, p2, n))
+            out.extend(_operands(v, p2, n, depth + 1))
+    return out
 
 
 def probe_result_of(t):
@@ -367,6 +384,7 @@ def origin_assumes(b):
         return oa
     from ..iexpr import truth
     oa = {}
+    cand = {}
     for n in b.nodes('assume'):
         c, pol = unwrap_not(n.data['cond'], n.data['pol'])
         table = {}
@@ -415,10 +433,65 @@ def origin_assumes(b):
         else:
             table = None
         if table and any(v is not None for v in table.values()):
-            # store the truth of the *assume* being satisfiable per site
-            oa[n.id] = (table, pol)
+            # "the alternative whose site was passed last is the one tested" only holds
+            # when no two of the sites can be passed in a row without the test in
+            # between (otherwise the alternatives exist side by side: elements of a
+            # collection, objects kept in a list ...): validated below
+            cand[n.id] = (table, pol)
+    # validation in rounds: first with plain reachability, then ignoring paths that
+    # contradict the tables validated so far (a failure handed on through two levels
+    # of helpers is tested once per level)
+    b._origin_assumes = oa
+    pending = dict(cand)
+    for nid in [k for k, (table, pol) in pending.items()
+                if len(table) <= 1 or _exclusive(b, list(table), k)]:
+        oa[nid] = pending.pop(nid)
+    progress = bool(oa)
+    while pending and progress:
+        progress = False
+        for nid in list(pending):
+            if _exclusive(b, list(pending[nid][0]), nid, feasible=True):
+                oa[nid] = pending.pop(nid)
+                progress = True
     b._origin_assumes = oa
     return oa
+
+
+def _exclusive(b, sites, at, feasible=False):
+    """No site can be passed after another one without passing ``at`` in between
+    (``feasible``: along a path consistent with the origin tables validated so far)."""
+    g = b.g
+    cache = getattr(b, '_excl_cache', None)
+    if cache is None:
+        cache = b._excl_cache = {}
+    key = (frozenset(sites), at)
+    if key in cache and (cache[key] or not feasible):
+        return cache[key]
+    ok = True
+    sset = set(sites)
+    # the test is one place in the program: all its graph nodes (both polarities of an
+    # assume, the branches of a dispatch) count as "the test"
+    an = g.n(at)
+    sib = getattr(b, '_sib_index', None)
+    if sib is None:
+        sib = b._sib_index = {}
+        for n in b.nodes('assume', 'dispatch'):
+            sib.setdefault((n.kind, n.file, n.line, n.stack), []).append(n.id)
+    here = sib.get((an.kind, an.file, an.line, an.stack), [at])
+    for s1 in sites:
+        nxt = [t for t, l in g.succ[s1]]
+        reach = g.reachable_from(nxt, blocked=here)
+        hits = [s2 for s2 in sites if s2 in reach]
+        if hits and feasible:
+            hits = [s2 for s2 in hits if feasible_path(b, [s1], s2, here) is not None
+                    and (s2 != s1 or any(feasible_path(b, [t], s1, here) is not None
+                                         for t in nxt))]
+        if hits:
+            ok = False
+            break
+    if ok or not feasible:
+        cache[key] = ok
+    return ok
 
 
 def dispatch_groups(b):
@@ -429,7 +502,8 @@ def dispatch_groups(b):
     if dg is None:
         dg = {}
         for n in b.nodes('dispatch'):
-            if n.data.get('group') and n.data.get('alt_site') is not None:
+            if n.data.get('group') and n.data.get('alt_site') is not None and \
+                    _exclusive(b, list(n.data['group']), n.id):
                 dg[n.id] = (n.data['alt_site'], n.data['group'])
         b._dispatch_groups = dg
     return dg
@@ -664,7 +738,7 @@ def carried_state_writes(b, region):
     that were created outside it and are live: state that outlives the region."""
     out = []
     for n in b.nodes('store', 'store-item', 'append'):
-        if n.id not in region:
+        if n.id not in region or n.data.get('comprehension'):
             continue
         tgt = n.data.get('obj') if n.kind == 'store' else \
             (n.data.get('base') if n.kind == 'store-item' else n.data.get('list'))
